@@ -252,7 +252,10 @@ def gen_case(rng, allow_mixed=True):
         raw = [("return", rng.choice(pys)) for _ in range(rng.randrange(1, 4))]
         tags.add("returns-of-frames-never-called")
     tags.add("patt:" + str(patt))
-    return {"patt": patt, "env": env, "lib": lib, "pymain": pymain, "funcs": funcs, "forest": forest, "raw": raw,
+    fresh = rng.random() < 0.5
+    if fresh:
+        tags.add("code-objects-recreated-per-event")
+    return {"fresh": fresh, "patt": patt, "env": env, "lib": lib, "pymain": pymain, "funcs": funcs, "forest": forest, "raw": raw,
             "tags": sorted(tags)}
 
 
@@ -332,7 +335,8 @@ class Impl:
         shutil.rmtree(d, ignore_errors=True)
         os.makedirs(d)
         events = flatten(k["funcs"], k["forest"], []) + list(k["raw"])
-        json.dump({"funcs": k["funcs"], "events": events}, open(os.path.join(d, "case.json"), "w"))
+        json.dump({"funcs": k["funcs"], "events": events, "fresh_objects": bool(k.get("fresh"))},
+                  open(os.path.join(d, "case.json"), "w"))
         env = {k_: v for k_, v in os.environ.items() if not k_.startswith("UFTRACE_")}
         env.update({"UFTRACE_SHMEM": "1", "UFTRACE_DIR": d, "C19_HOOKLOG": os.path.join(d, "hooks"),
                     "LD_PRELOAD": self.fake, "PYTHONPATH": self.pyso, "PYTHONDONTWRITEBYTECODE": "1"})
@@ -386,7 +390,7 @@ class Impl:
 
 
 def case_json(k):
-    return {kk: k.get(kk) for kk in ("patt", "env", "lib", "pymain", "funcs", "forest", "raw")}
+    return {kk: k.get(kk) for kk in ("fresh", "patt", "env", "lib", "pymain", "funcs", "forest", "raw")}
 
 
 def evaluate(ctx, cases, name="cases"):
